@@ -9,6 +9,16 @@ func init() {
 	registerRule("R14", ruleR14)
 	registerRule("R34", ruleR34)
 	registerRule("R12", ruleR12)
+	registerRule("R20", ruleR20)
+	registerRule("R15", ruleR15)
+	registerRule("R32", ruleR32R33)
+	registerRule("R33", func(c *Ctx) { c.run("R32") })
+	registerRule("R21", ruleNodeLayer)
+	registerRule("R22", func(c *Ctx) { c.run("R21") })
+	registerRule("R23", func(c *Ctx) { c.run("R21") })
+	registerRule("R24", func(c *Ctx) { c.run("R21") })
+	registerRule("R25", func(c *Ctx) { c.run("R21") })
+	registerRule("R30", func(c *Ctx) { c.run("R21") })
 	registerRule("R35", ruleR35)
 	registerRule("R08", ruleR08)
 	registerRule("R16", func(c *Ctx) { c.run("R08") })
@@ -69,4 +79,24 @@ func init() {
 		Rules: []string{"R27", "R28"},
 		Explain: "R27 no sequence closure assigns, increments or takes the address of a variable declared outside it, so a second pass starts from the same captured values; R28 every yield call decides a branch whose false outcome reaches the function exit with no further yield call reachable (go/cfg reachability), and no yield is deferred. 12 closures, all yield sites.",
 		NotDecided: "Nothing value-level: with the tree unchanged, the yielded elements are those of C02–C05."})
+	registerProp(&propSpec{ID: "C07", Level: "other", DesignRef: "§4 C07",
+		Rules: []string{"R15", "R32", "R05"},
+		Explain: "Encoder/decoder sibling agreement of the three numeric codecs, per key type and target architecture (constant-folded bits.UintSize branches): R15 the type switches of Transform and Restore have an arm for every term of the constraint's type set; the encoding length equals unsafe.Sizeof of the key type; every encoding/binary call is on BigEndian with the width of the type; the sign-flip constant is exactly 1<<(8W-1) in both directions; float: shift 8W-1, sign constant, the offset is equal in both directions and ≥ 2, and the special codes {NaN→0, -Inf→1, +Inf→2^n-2} form the same table in both directions; R32 every reinterpreting cast is between pointer-free types of fitting size; R05 fixed width (prefix-free, concatenable).",
+		NotDecided: "The sign-magnitude→biased mask arithmetic itself and hence monotonicity/injectivity for every bit pattern: that needs enumeration or a solver, which static analysis excludes."})
+	registerProp(&propSpec{ID: "C10", Level: "other", DesignRef: "§4 C10",
+		Rules: []string{"R19", "R09", "R10", "R22", "R20"},
+		Explain: "R19 every use of a 4-lane SWAR search result as an index is under result < fill count (the search sees all four lanes, occupied or not), and deleteChild – the one unguarded user – is only called for a byte proven registered by findChild on the same reference; R09 the byte→child lookup of each size class and every inlined copy of it agree; R10 constant-range indexes fit [4]/[16]/[48]/[256]; R22 capacity guards equal the array lengths and shrink thresholds fit the smaller class; R20 each architecture sibling of the 16-lane routines (amd64 asm, arm64 asm, portable Go) makes its result depend on keys, fill count and probe byte, compares unsigned, and stores nothing but the result.",
+		NotDecided: "The SWAR/SIMD bit arithmetic (2^40 / 2^140 inputs): that insertPosNode4/16 return the sorted position and searchNode4 the first matching lane."})
+	registerProp(&propSpec{ID: "C11", Level: "other", DesignRef: "§4 C11",
+		Rules: []string{"R06", "R07", "R21", "R22", "R23", "R03", "R04", "R24"},
+		Explain: "R06 a reference is only ever read through the layout its tag names (120 casts under tag facts, 48 reference literals pairing pointer type and tag, pool assertions); R07 every kind switch has one arm per inner kind and a panicking default; R21 every grow/shrink copies every header field (prefixLen, childrenLen, prefix) to the replacement before releasing the old node; R22 capacity guards/thresholds are coherent with the array lengths; R23 node fields are written only by the node layer and the Insert split paths; R03/R04 the number of linked leaves moves in step with size on every path; R24 nodes are released only after the slot is relinked.",
+		NotDecided: "That prefix lengths/bytes equal the common extension of the keys below a node after split and merge (byte arithmetic), and history independence of the shape."})
+	registerProp(&propSpec{ID: "C12", Level: "other", DesignRef: "§4 C12",
+		Rules: []string{"R24", "R25", "R30", "R06", "R14"},
+		Explain: "Pool typestate for each of the 7 releases: the node is cleared in the statement before Put, clear() resets every field of the struct (header included), the node is not used after release, the slot referencing it was overwritten before, its type matches the pool index, and every Get is asserted to the layout of its index (R24, R06); the only per-tree state is {root, size, codec} written only by Insert/Delete, and the root-leaf delete stores the zero reference, so an emptied tree equals a new one (R25, R14); the only package-level state is the sync.Pool array used through Get/Put (R30) – hence trees share no mutable memory except cleared, unreferenced pool objects.",
+		NotDecided: "Nothing value-level beyond C01/C11; sync.Pool's own behaviour is trusted."})
+	registerProp(&propSpec{ID: "C18", Level: "other", DesignRef: "§4 C18",
+		Rules: []string{"R32", "R33", "R06", "R16"},
+		Explain: "R32 each of the ~180 uses of package unsafe matches a pattern under which the collector sees every reference (typed pointer → unsafe.Pointer; tag-checked typed view; reinterpretation of a pointer-free local of fitting size; unsafe.Slice over a pointer/length field pair of one leaf; SliceData); no pointer↔uintptr conversion, unsafe.Add, reflect, cgo or linkname; key bytes sit behind typed *byte fields; R33 leaves read through another kind's leaf type (signed/float Range read through unsignedLeafNode) have identical field names, types, order and accessor bodies; R06 tag-checked casts; R16 pointer and length of a stored key come from the same slice.",
+		NotDecided: "Behaviour of the Go collector itself (trusted as documented for unsafe.Pointer patterns (1) and (6))."})
 }
